@@ -484,6 +484,12 @@ func decodeSeq(idx, length int) []Setting {
 }
 
 func runC19(c *Cfg) {
+	if RaceEnabled {
+		// the construction routes under the race detector: the option form and the builder form of every function
+		// setter install equivalent, equally goroutine-safe wrappers (concurrent batches call them from c workers)
+		runBatchRace(c, "C19")
+		return
+	}
 	r := c.Rep
 	// defaults
 	r.Eval()
@@ -565,6 +571,37 @@ func runC19(c *Cfg) {
 					}
 				}
 				r.Nontrivial(fmt.Sprintf("re %d %d %s", c1, c2, via))
+			}
+		}
+	}
+	// documented defaults in action: a concurrency is configured, the error handling is not — errors do not stop the
+	// batch, however large it is (well beyond what the pool's queue can hold), through every construction route
+	for _, cc := range []int{1, 2, 3} {
+		for _, build := range []string{"builder", "options", "compose", "option-then-builder"} {
+			for _, n := range []int{4*cc + 8, 40} {
+				it := make([]ItemScript, n)
+				for j := range it {
+					it[j].K = 1
+				}
+				it[0].K, it[n/2].K = 2, 2
+				bc := &BatchCase{Family: "c19-default-error-handling", N: n, C: cc, Budget: 1, Items: it, Shape: map[string]string{"compose": "any"}[build], Build: build, ExecStyle: []string{"result", "any"}[(cc+n)%2], Gated: true, Policy: "holdfail"}
+				if bc.Shape == "" {
+					bc.Shape = "results"
+				}
+				o := runBatchCase(bc)
+				r.Eval()
+				if o.Incon != "" {
+					r.Incon(o.Incon)
+					continue
+				}
+				r.Count("default_error_handling.cases", 1)
+				for _, f := range judgeBatch(bc, o) {
+					if f.Prop == "C07" || f.Prop == "C09" || f.Prop == "C06" {
+						r.Violate("C19", "C19:default-error-handling:"+f.Key, fmt.Sprintf("batch node with concurrency %d configured (%s) and the error handling left at its default (continue on errors), %d items of which two fail: %s", cc, build, n, f.Detail), bc)
+						break
+					}
+				}
+				r.Nontrivial(fmt.Sprintf("deh %d %s %d", cc, build, n))
 			}
 		}
 	}
